@@ -88,7 +88,7 @@ int main(int argc, char** argv) {
 		vf::Json r = vf::Json::load(args.replay);
 		Cfg c{ r.at("v2").b, r.at("hard").b, r.at("light").b };
 		ProgBuf p; auto bytes = vf::unhex(r.at("program").s); memcpy(p.b, bytes.data(), std::min(bytes.size(), ProgBytes));
-		Pair pr(c);
+		Pair pr(c); vf::watchdog(300);
 		if (r.has("prefix_begin")) {   // state-dependent: re-run the unit prefix
 			const Family* f = nullptr; for (auto& x : fams(c)) if (x.name == r.at("family").s) f = &x;
 			if (!f) return 2;
@@ -126,7 +126,7 @@ int main(int argc, char** argv) {
 			int bad = 0;
 			for (uint64_t idx = un.begin; idx < un.end; ++idx) {
 				f.make(idx, c.v2, p); unsigned fprc = (unsigned)(idx % 4);
-				if ((idx & 63) == 0) vf::set_current(case_json(c, f.name, idx, p, image, fprc).dump());
+				vf::set_current(case_json(c, f.name, idx, p, image, fprc).set("prefix_begin", (unsigned long long)un.begin).set("finding_key", "c04:hang-or-crash:" + c.name()).dump()); vf::watchdog(heavy ? 120 : 30);
 				std::string d = pr.step(p, fprc);
 				R.n[f.sampling ? "sampled_programs" : "programs"]++;
 				R.n["programs_" + f.name]++;
@@ -147,10 +147,11 @@ int main(int argc, char** argv) {
 			R.n["units"]++;
 			if (R.viol.size() >= 3) { R.incomplete = true; break; }
 		}
+		alarm(0);
 		R.n["distinct_regfile_digests"] = digests.size();
 		for (auto& kv : pairs) if (kv.second) { R.n["branch_targets_compared"] += kv.second->compared_branches; R.n["branch_encodings_not_recognised"] += kv.second->unparsed_branches; }
 		return R;
-	}, false, 3600);
+	}, true, 7200);   // a program that crashes or does not terminate in one engine is a verdict (replayed before it is reported)
 
 	vf::Evidence ev; ev.level = "translation_validation";
 	uint64_t progs = total.n["programs"] + total.n["sampled_programs"];
@@ -160,5 +161,5 @@ int main(int argc, char** argv) {
 		.set("evaluations", (unsigned long long)progs).set("distinct_nontrivial", (unsigned long long)total.n["distinct_regfile_digests"]);
 	ev.assumptions = { "program = composition of enumerated words; dataset content is one fixed pseudo-random image; light mode over one real cache",
 		"CompiledVm::run glue (6 lines) replicated in the harness because the program generator cannot be inverted; the real run() is covered by C01/C02" };
-	return vf::finish(args, total, ev);
+	return vf::finish(args, total, ev, true, true);
 }
